@@ -47,6 +47,28 @@ RuleTermBest(c, r) ==
                            THEN WeightOf("mp", c.ag, r.edges[k].lab, BFlat(ShapeOf(c.ag, r.edges[k].lab), [m \in DOMAIN r.edges[k].att |-> a[r.edges[k].att[m]]]))
                            ELSE 0, Len(r.edges)) : a \in RuleAssts(c.ag, r) })
 ZeroWeightRecursion(c) == \E i \in DOMAIN c.ag.rules : RecEdgesOfRule(c.ag, c.ag.rules[i]) # {} /\ RuleTermBest(c, c.ag.rules[i]) = 0
-SigTags(c) == (IF ZeroWeightRecursion(c) THEN <<"zero_weight_recursive_rule">> ELSE <<>>) \o <<c.out>>
+\* The tie-break the code documents (F_viterbi: a later rule takes the pointer only when STRICTLY better): the
+\* rule pointer of (X, ea) is the FIRST rule of X, in rule order, whose value at the fixed point is the maximum;
+\* inside the rule any maximising assignment may be the one recorded.  The recorded finding is: following these
+\* pointers from the start can go round a cycle (of total weight 0).  It does not cover a cycle that exists only
+\* under another tie-break.
+FirstMaxRule(g, mu, X, ea) == Min({ i \in RulesOf(g, X) : RuleVal("mp", g, mu, g.rules[i], ea) = mu[X][ea] })
+PtrSucc(g, mu, p) ==
+  LET X == p[1]  ea == p[2]  r == g.rules[FirstMaxRule(g, mu, X, ea)]
+      best == { a \in RuleAssts(g, r) : /\ \A k \in DOMAIN r.ext : a[r.ext[k]] = ea[k]
+                                         /\ SrProdSeq("mp", LAMBDA i: EdgeVal("mp", g, mu, r.edges[i], a), Len(r.edges)) = mu[X][ea] }
+  IN UNION { { <<r.edges[k].lab, [m \in DOMAIN r.edges[k].att |-> a[r.edges[k].att[m]]]>> :
+                 k \in { k \in DOMAIN r.edges : ~g.els[r.edges[k].lab].t } } : a \in best }
+RECURSIVE PtrReach(_, _, _, _)
+PtrReach(g, mu, front, seen) ==
+  LET nxt == UNION { PtrSucc(g, mu, p) : p \in front } \ seen IN
+  IF nxt = {} THEN seen ELSE PtrReach(g, mu, nxt, seen \cup nxt)
+FirstMaxPointersMayCycle(c) ==
+  LET mu == Lfp("mp", c.ag, 60) IN
+  IF ~mu.stable \/ mu.x[c.ag.start][c.sa] \in {NINF, INF} THEN FALSE
+  ELSE LET R == PtrReach(c.ag, mu.x, {<<c.ag.start, c.sa>>}, {<<c.ag.start, c.sa>>}) IN
+       \E p \in R : p \in PtrReach(c.ag, mu.x, {p}, {})
+SigTags(c) == (IF ZeroWeightRecursion(c) THEN <<"zero_weight_recursive_rule">> ELSE <<>>)
+              \o (IF c.out = "raise:RecursionError" /\ FirstMaxPointersMayCycle(c) THEN <<"first_maximal_rule_pointers_may_cycle">> ELSE <<>>) \o <<c.out>>
 Judge == LET c == Cases[tid] IN PrintT(ToJson([gtid |-> c.gtid, v |-> Verdict(c), tags |-> c.tag \o SigTags(c)]))
 =============================================================================
